@@ -110,15 +110,15 @@ def Bitboard._is_square_in_check (color_bits : Int) (passive : Inkayaku.Rs.Playe
     if (bishop_attacks &&& ((← PlayerState.bishops passive.occupancy) ||| (← PlayerState.queens passive.occupancy))) ≠ (0 : UInt64) then do
       pure true
     else do
-      let knight_attacks : UInt64 := (KNIGHT_NONMAGICS_get_attacks king_square_shift)
+      let knight_attacks := (KNIGHT_NONMAGICS_get_attacks king_square_shift)
       if (knight_attacks &&& (← PlayerState.knights passive.occupancy)) ≠ (0 : UInt64) then do
         pure true
       else do
-        let pawn_attacks := if color_bits = WHITE then ((WHITE_PAWN_NONMAGICS_get_attacks king_square_shift)) else ((BLACK_PAWN_NONMAGICS_get_attacks king_square_shift))
+        let pawn_attacks := if color_bits = WHITE then (WHITE_PAWN_NONMAGICS_get_attacks king_square_shift) else (BLACK_PAWN_NONMAGICS_get_attacks king_square_shift)
         if (pawn_attacks &&& (← PlayerState.pawns passive.occupancy)) ≠ (0 : UInt64) then do
           pure true
         else do
-          let king_attacks : UInt64 := (KING_NONMAGICS_get_attacks king_square_shift)
+          let king_attacks := (KING_NONMAGICS_get_attacks king_square_shift)
           pure (decide ((king_attacks &&& (← PlayerState.kings passive.occupancy)) ≠ (0 : UInt64)))
 
 /-- `fn _is_in_check_by_bits(&self, color_bits: ColorBits) -> bool` in `impl Bitboard` (board/src/board.rs:838).
